@@ -5,6 +5,7 @@ ID = "C13"
 HARNESSES = [dict(name="configmgr", pkg="./pkg/configmgr/", test="TestVerifC13", timeout=900,
                   files=[("pkg/configmgr/zz_verif_c13_test.go", "harness/C13/zz_verif_c13_test.go")])]
 VARIANTS = ["repaired", "set_defect", "persist_defect", "defective"]
+MODEL_NEEDS_IMPL = True     # only the concurrent cases use it (linearizability search in the driver)
 RULE = ("One case = one history against a fresh ConfigManager: a registry of 2-7 recording handlers on real path "
         "patterns (scalar leaves of interfaces/vrfs/protocols/aaa, _internal no-op paths, a literal pattern shadowing "
         "a wildcard one) with generated dependency lists (chains, forward references, self-dependencies, cycles, "
@@ -16,7 +17,8 @@ RULE = ("One case = one history against a fresh ConfigManager: a registry of 2-7
         "write fails, and pairs of these). Session ids are mostly the live one, sometimes stale or never issued. "
         "Named boundary classes are emitted first (every failure point x position, retry after failure, "
         "set-after-failed-persist, empty diff, dependency satisfied from running only, uint16/uint32 wrap). "
-        "Non-trivial: the history contains a commit that reached the apply loop (its trace is not empty). "
+        "Concurrent cases (1 in 6): 2-3 goroutines race create/set/commit/close/read on their own sessions; the driver "
+        "searches for a sequential order explaining every result and the final state. Non-trivial: the history contains a commit that reached the apply loop (its trace is not empty). "
         "Distinct: by case text.")
 TRUSTED = ["the schema table in props/C13.py (kind and container prefixes of each real path pattern) is tied to "
            "config.Config only through the correspondence check",
@@ -228,9 +230,54 @@ def boundary_cases():
     return [" ".join(c) for c in out]
 
 
+def conc_case(rng):
+    """2-3 threads race create/set/commit/close on their own sessions (no faults, no reload script)"""
+    pats = rng.sample([p for p in PATS if SCHEMA[p][0] != "N"], rng.randint(2, 4))
+    deps = [[] for _ in pats]
+    if rng.random() < 0.4 and len(pats) > 1:
+        deps[1] = [0]
+    toks = ["conc"] + mk_reg(rng, pats, deps, [False] * len(pats))
+    nt = rng.choice([2, 2, 3])
+    toks += ["threads", str(nt)]
+    if rng.random() < 0.5:
+        # one owner creates, edits and commits session-1 while the others edit / close / commit the same session
+        def sset():
+            i = rng.randrange(len(pats))
+            return "s1:%s:%s" % (fill(pats[i], [rng.choice(WILDS[:2])] * 2), good_value(rng, pats[i]))
+        toks += ["c", sset(), "m1"] + (["c", sset(), "m"] if rng.random() < 0.3 else [])
+        for t in range(1, nt):
+            toks.append("|")
+            toks += [rng.choice([sset(), sset(), sset(), "m1", "x1", "c", "g"]) for _ in range(rng.randint(2, 4))]
+        return " ".join(toks)
+    for t in range(nt):
+        if t:
+            toks.append("|")
+        n = rng.randint(2, 4 if nt == 3 else 5)
+        ops = []
+        shared = rng.random() < 0.5      # this thread works on session-1 whoever created it
+        sfx = "1" if shared else ""
+        while len(ops) < n:
+            r = rng.random()
+            if (not ops and not (shared and t > 0)) or r < 0.2:
+                ops.append("c")
+            elif r < 0.6:
+                i = rng.randrange(len(pats))
+                ops.append("s%s:%s:%s" % (sfx, fill(pats[i], [rng.choice(WILDS[:2])] * 2), good_value(rng, pats[i])))
+            elif r < 0.85:
+                ops.append("m" + sfx)
+            elif r < 0.93:
+                ops.append("x" + sfx)
+            else:
+                ops.append(rng.choice(["g", "d"]))
+        toks += ops
+    return " ".join(toks)
+
+
 def gen_cases(rng, tier, budget):
-    n = budget or (2500 if tier == "quick" else 30000)
+    n = budget or (2000 if tier == "quick" else 24000)
     cases = boundary_cases()
+    for _ in range(max(20, n // 5)):
+        cases.append(conc_case(rng))
     for _ in range(n):
         pats, deps, frr = rand_registry(rng)
         toks = mk_reg(rng, pats, deps, frr)
@@ -281,8 +328,24 @@ def parse_step(s):
     return res, ([] if tr == "-" else tr.split(",")), delta
 
 
-def monitor(case, line):
-    """The property evaluated on one side's own output. Returns None or a description of the violation."""
+def known_signatures():
+    import os
+    out = set()
+    path = os.path.join(os.path.dirname(os.path.dirname(os.path.abspath(__file__))), "KNOWN_FINDINGS.txt")
+    try:
+        for l in open(path):
+            if l.startswith("known: property=C13 "):
+                out.add(l.split("signature=")[1].split()[0])
+    except Exception:
+        pass
+    return out
+
+
+def monitor(case, line, tolerate=None):
+    """The property evaluated on one side's own output. Returns None or a description of the violation.
+    Violations that have exactly the shape of a finding recorded as 'known:' are skipped, so that the
+    description names what is new."""
+    tol = known_signatures() if tolerate is None else tolerate
     try:
         head, ops = split_case(case)
     except Exception:
@@ -290,17 +353,29 @@ def monitor(case, line):
     st = steps(line)
     if len(st) != len(ops):
         return None
-    R = "-"
+    R, C, L = "-", "-", "-"
+    aliased = False          # after a tolerated startup-save failure the session shares running
+    phantom = []             # paths of failed Sets that nevertheless created containers (tolerated)
     for i, (o, s) in enumerate(zip(ops, st)):
         res, tr, d = parse_step(s)
         persisted = [k for k in "RSFW" if k in d]
         if o[0] != "m":
-            if persisted:
+            if o[0] == "s" and res == "setfail" and "C" in d:
+                if "failed-set-leaves-containers" in tol:
+                    phantom.append(o[2])
+                else:
+                    return "step %d (%s): a Set that failed changed the candidate: %s" % (i, " ".join(o), d["C"][:200])
+            if persisted and not (aliased and o[0] == "s" and persisted == ["R"]):
                 return "step %d (%s): %s changed by an operation that is not a commit" % (i, " ".join(o), persisted)
         else:
+            flags = o[2].split(":")[1]
             okap = [x[2:] for x in tr if x.startswith("A:")]
             rb = [x[2:] for x in tr if x.startswith("R:")]
-            if res != "ok":
+            if res == "startupsave" and "s" in flags and "commit-error-after-swap:startup-save" in tol and "F" not in d and "W" not in d:
+                aliased = True
+            elif res == "versionsave" and "v" in flags and "commit-error-after-swap:version-save" in tol and "W" not in d:
+                pass
+            elif res != "ok":
                 if persisted or "V" in d:
                     return "step %d (%s): commit returned %s but %s changed" % (i, " ".join(o), res, persisted or ["V"])
                 if rb != okap[::-1]:
@@ -311,15 +386,25 @@ def monitor(case, line):
                 if "R" in d:
                     old = set() if R == "-" else set(R.split(","))
                     new = set() if d["R"] == "-" else set(d["R"].split(","))
-                    setp = [x.split("=")[0] for x in okap]
+                    setp = [x.split("=")[0] for x in okap] + phantom
                     for e in old ^ new:
                         p = e.split("=")[0].rstrip("/")
                         if not any(q == p or q.startswith(p + ".") for q in setp):
                             return "step %d: successful commit changed %s which was not set in the session" % (i, e)
-        if "R" in d:
-            R = d["R"]
-        if "C" in d and "+" in d["C"]:
-            return "step %d: two candidate sessions alive: %s" % (i, d["C"])
+        R = d.get("R", R)
+        C = d.get("C", C)
+        if "L" in d:
+            L = d["L"]
+            aliased = False if L == "-" else aliased
+            if L == "-":
+                phantom = []
+        ids = [] if C == "-" else [x.split("#")[0] for x in C.split("+")]
+        if len(ids) > 1:
+            return "step %d (%s): two candidate sessions alive: %s" % (i, " ".join(o), ids)
+        if L != "-" and L not in ids:
+            return "step %d (%s): the lock is held by %s but that session does not exist" % (i, " ".join(o), L)
+        if ids and L != ids[0]:
+            return "step %d (%s): session %s exists without holding the lock (lock: %s)" % (i, " ".join(o), ids[0], L)
     return None
 
 
@@ -332,6 +417,11 @@ def first_diff(impl, model):
 
 
 def classify(case, impl, model):
+    if case.startswith("conc "):
+        if model == "NOT-LINEARIZABLE":
+            return "P", ("concurrent create/set/commit/close history has no sequential explanation: per-thread results "
+                         "and final state %r" % impl[:600])
+        return "G", "concurrent case: impl=%r model=%r" % (impl[:300], model[:300])
     v = monitor(case, impl)
     i = first_diff(impl, model)
     where = ""
@@ -349,6 +439,8 @@ def classify(case, impl, model):
 
 
 def signature(case, impl, models):
+    if case.startswith("conc "):
+        return "unclassified:conc"
     i = first_diff(impl, models["repaired"])
     try:
         _, ops = split_case(case)
@@ -368,10 +460,20 @@ def signature(case, impl, models):
 
 
 def nontrivial(case, impl):
+    if case.startswith("conc "):
+        return ",ok" in impl.split(" | ")[0] and "R=-" not in impl
     return any(parse_step(s)[1] for s in steps(impl))
 
 
 def shrink(case):
+    if case.startswith("conc "):
+        t = case.split()
+        k = t.index("threads")
+        head, body = t[:k + 2], t[k + 2:]
+        for i in range(len(body)):
+            if body[i] != "|":
+                yield " ".join(head + body[:i] + body[i + 1:])
+        return
     head, ops = split_case(case)
     for i in range(len(ops) - 1, -1, -1):
         yield join_case(head, ops[:i] + ops[i + 1:])
@@ -396,7 +498,15 @@ def shrink(case):
 def distribution(cases, impl):
     d = {"ops": {}, "results": {}, "fault_plans": {}, "commits_reaching_apply": 0, "history_len_max": 0,
          "guard_cases": 0}
+    d["concurrent_cases"] = 0
+    d["concurrent_commits_ok"] = 0
     for c, o in zip(cases, impl):
+        if c.startswith("conc "):
+            d["concurrent_cases"] += 1
+            k = c.split()
+            ms = [x for x in k[k.index("threads"):] if x in ("m", "m1")]
+            d["concurrent_commits_ok"] += (o or "").split(" | ")[0].count(",ok") if ms else 0
+            continue
         try:
             head, ops = split_case(c)
         except Exception:
